@@ -119,7 +119,8 @@ def _kkt_nl(pb, flt, F, builtin='ldl'):
 # ------------------------------------------------------------------------------------------------ base problems
 def base_list(tier, seed):
     out = []
-    structs = [{'l': 2, 'q': [], 's': []}, {'l': 0, 'q': [3], 's': []}, {'l': 0, 'q': [], 's': [2]}, {'l': 1, 'q': [2], 's': [2]}]
+    structs = [{'l': 2, 'q': [], 's': []}, {'l': 0, 'q': [3], 's': []}, {'l': 0, 'q': [], 's': [2]}, {'l': 1, 'q': [2], 's': [2]},
+               {'l': 0, 'q': [], 's': [2, 2]}]       # two 's' blocks: the failure handlers walk the blocks with their own offsets
     if tier == 'thorough':
         structs += [{'l': 3, 'q': [], 's': []}, {'l': 1, 'q': [1, 2], 's': []}, {'l': 0, 'q': [], 's': [1, 2]}, {'l': 0, 'q': [2], 's': [3]}]
     for d in structs:
@@ -142,6 +143,11 @@ def base_list(tier, seed):
                 if cone and cone['s'] == [2, 2] and (rf == 0 or tier == 'quick' and not t.startswith('ball')):
                     continue
                 out.append({'kind': 'nl', 'tag': t, 'cone': cone, 'refinement': rf, 'seed': seed})
+    # overshooting problems with an equality constraint: y belongs to the state cpl saves and restores
+    for t in ['ballo2.0', 'ball2.0'] + (['ballo3.1'] if tier == 'thorough' else []):
+        for cone in (None, {'l': 1, 'q': [2], 's': [2]}):
+            for av in (1, 2):       # two different equality constraints (multiplier y != 0 at the optimum)
+                out.append({'kind': 'nl', 'tag': t, 'cone': cone, 'refinement': 1, 'seed': seed, 'p': 1, 'av': av})
     if tier == 'quick':
         # a start 2^-20 from the domain boundary with an order-2 's' block: the relaxed line searches fail here and cpl
         # resumes its saved line search (the state restored there includes the eigen-decomposition of the 's' steps)
@@ -186,9 +192,9 @@ def _setup(b):
             return qpsolve.call(inst, cfg, kktsolver_obj=_kkt_coneqp(inst, flt, 'ldl'))[0], None
         return inst, cfg, runner
     pb = [p for p in nlsolve.base_problems(b['seed']) if p['tag'] == b['tag']][0]
-    if b['cone'] is not None:
+    if b['cone'] is not None or b.get('p'):
         A0, b0 = pb['A'], pb['b']
-        pb = nlsolve.with_cone(pb, b['cone'], b['seed'], 0)
+        pb = nlsolve.with_cone(pb, b['cone'] or nlsolve.D0, b['seed'] + b.get('av', 0), b.get('p', 0))
         if A0:
             pb['A'], pb['b'] = A0, b0
     cfg = {'opts': {'refinement': b['refinement']}}
